@@ -173,10 +173,21 @@ Proof.
         assert (missing S pt >= 1)%nat; [|lia].
         pose proof (missing_decr S pt (pt ++ [CName sys]) sys ec Hl Hm). rewrite mem_name_app, mem_name_single,
           String.eqb_refl, orb_true_r in H0. specialize (H0 eq_refl (grows_app _ _)). lia. }
-      destruct (resolve_loop_decimal S Hwf fuel' (set_system c (c_system ec)) (pt ++ [CName sys]) Hs Ha)
-        as (c' & -> & Hok).
-      exists c', ((pt ++ [CName sys]) ++ [CName "decimal"]). split; [reflexivity|]. split; [exact Hok|].
-      eapply grows_trans; apply grows_app.
+      assert (Hext1 : ext1 = true) by (destruct ext1; [reflexivity|discriminate]).
+      assert (Hext : fst (fst (sys_of ec)) = true) by (rewrite Eec; exact Hext1).
+      destruct (adequate_ext_nosyms ec Hec Hext) as [Hes Hea].
+      destruct (String.eqb sys1 sys).
+      * assert (Hms : c_symbols (merge (set_system c (c_system ec)) ec) = None)
+          by (unfold merge, set_system; cbn [c_symbols]; rewrite Hs, Hes; reflexivity).
+        assert (Hma : c_additive (merge (set_system c (c_system ec)) ec) = None)
+          by (unfold merge, set_system; cbn [c_additive]; rewrite Ha, Hea; reflexivity).
+        destruct (resolve_loop_decimal S Hwf fuel' _ (pt ++ [CName sys]) Hms Hma) as (c' & -> & Hok).
+        exists c', ((pt ++ [CName sys]) ++ [CName "decimal"]). split; [reflexivity|]. split; [exact Hok|].
+        eapply grows_trans; apply grows_app.
+      * destruct (resolve_loop_decimal S Hwf fuel' (set_system c (c_system ec)) (pt ++ [CName sys]) Hs Ha)
+          as (c' & -> & Hok).
+        exists c', ((pt ++ [CName sys]) ++ [CName "decimal"]). split; [reflexivity|]. split; [exact Hok|].
+        eapply grows_trans; apply grows_app.
     + (* ordinary step *)
       destruct (IH (merge (set_system c (c_system ec)) ec) ext1 sys1 (pt ++ [CName sys])) as (c' & pt' & Hrun & Hok & Hg).
       * split.
